@@ -1,6 +1,6 @@
 SPECIFICATION Spec
 CONSTANTS
-  Fams = {"single", "disjoint"}
+  Fams = {"corner", "mixed4"}
   MaxRoutes = 3
   PerClass = 4
   DEV_RemoveNoRebuild = FALSE
